@@ -163,8 +163,8 @@ type Run struct {
 	regions           map[int][]region
 	lateOps           []*OpRec
 	defaultsScribbled bool
-	file     *fileState
-	reads    []simrt.ReadRecord
+	file              *fileState
+	reads             []simrt.ReadRecord
 
 	viol      []Violation
 	probes    map[string]int
